@@ -105,8 +105,9 @@ impl Clone for PulledMessage {
 
 //@hoisted src/subscriptions/pulled_message.rs AckDeadline::new
 
-/// 100 ms rounding grid used by AckDeadline::new, in nanoseconds
-pub open spec fn grid_ns() -> int { 100_000_000 }
+/// the statement's "fixed sub-second slack": a deadline is rounded up by less than one second (the code rounds to a
+/// 100 ms grid; the contract does not pin the grid)
+pub open spec fn grid_ns() -> int { 1_000_000_000 }
 
 impl AckDeadline {
     /// instant of the deadline, ns
@@ -489,12 +490,19 @@ pub proof fn lemma_trunc_u16(l: usize)
 {
     assert(l as u16 == (l % 0x1_0000) as u16) by (bit_vector);
 }
-pub open spec fn pull_cap(backlog_len: int, max_count: u16) -> int {
+spec fn pull_cap(backlog_len: int, max_count: u16) -> int {
     let outgoing = (backlog_len % 0x1_0000) as int;
-    let hi = if outgoing > 1000 { outgoing } else { 1000 };
+    let hi = if outgoing > MAX_PULL_COUNT as int { outgoing } else { MAX_PULL_COUNT as int };
     if (max_count as int) > hi { hi } else { max_count as int }
 }
-pub open spec fn pull_count(backlog_len: int, max_count: u16) -> int {
+/// C15 at the actor: at most max_count messages (at most one when the 16-bit limit is 0, which a unary
+/// max_messages = k * 65536 turns into), and none only when nothing is queued
+pub open spec fn count_ok(n: int, backlog_len: int, max_count: u16) -> bool {
+    &&& n <= backlog_len
+    &&& n <= (if max_count == 0 { 1 } else { max_count as int })
+    &&& (n == 0 <==> backlog_len == 0)
+}
+spec fn pull_count(backlog_len: int, max_count: u16) -> int {
     let cap = pull_cap(backlog_len, max_count);
     if backlog_len == 0 { 0 } else if cap == 0 { 1 } else if backlog_len < cap { backlog_len } else { cap }
 }
@@ -535,7 +543,7 @@ pub open spec fn pull_view(s: SubView, v: Seq<PulledMessage>) -> SubView {
 }
 /// what one pull returns from state s (conjunction of the C15 / C08 / C03 / C04 clauses of pull_messages)
 pub open spec fn pull_result_ok(v: Seq<PulledMessage>, s: SubView, max_count: u16, d: nat) -> bool {
-    &&& v.len() == pull_count(s.backlog.len() as int, max_count)
+    &&& count_ok(v.len() as int, s.backlog.len() as int, max_count)
     &&& pulled_msgs(v, s)
     &&& pulled_ids(v, s)
     &&& exists|now: Instant| pulled_deadlines(v, now.v(), d)
@@ -640,7 +648,7 @@ impl SubscriptionActor {
 //@ ensures[C03] r.is_ok()
 //@ ensures[C11] old(self)@.deleted ==> r.unwrap()@.len() == 0 && final(self)@ == old(self)@
 //@ # C15: batch size (incl. the u16 truncation of the backlog length); non-empty iff the backlog is non-empty
-//@ ensures[C15] !old(self)@.deleted ==> r.unwrap()@.len() == pull_count(old(self)@.backlog.len() as int, max_count)
+//@ ensures[C15] !old(self)@.deleted ==> count_ok(r.unwrap()@.len() as int, old(self)@.backlog.len() as int, max_count)
 //@ # C08: the batch is the first n backlog messages, in order
 //@ ensures[C08] !old(self)@.deleted ==> pulled_msgs(r.unwrap()@, old(self)@)
 //@ # C03: fresh consecutive ack ids
@@ -761,18 +769,17 @@ fn expire_turn_mirror(actor: &mut SubscriptionActor, now: &Instant)
 
 //@tags C15
 /// C15: a unary Pull with max_messages = m >= 1 passes `m as u16` to the actor; whatever that truncation yields,
-/// the batch never has more than m messages (and is non-empty iff the backlog is non-empty).
-pub proof fn lemma_pull_limit(m: i32, backlog_len: int)
-    requires m >= 1, backlog_len >= 0
+/// a batch that satisfies the actor's count clause never has more than m messages (and is non-empty iff the backlog
+/// is non-empty).
+pub proof fn lemma_pull_limit(m: i32, backlog_len: int, n: int)
+    requires m >= 1, backlog_len >= 0, count_ok(n, backlog_len, m as u16)
     ensures
-        pull_count(backlog_len, m as u16) <= m,
-        pull_count(backlog_len, m as u16) == 0 <==> backlog_len == 0,
+        n <= m,
+        n == 0 <==> backlog_len == 0,
 {
     let c = m as u16;
     assert(m as u16 == (m as u32 % 0x1_0000) as u16) by (bit_vector);
-    if c == 0 {
-        assert(pull_cap(backlog_len, c) == 0);
-    } else {
+    if c != 0 {
         assert(c as int <= m) by {
             assert(m >= 1 ==> ((m as u32 % 0x1_0000) as u16) as int <= m as int) by (bit_vector);
         }
